@@ -92,7 +92,44 @@ def interp(scheme, flags):
             anchor(f in d['funcs'], 'operator function %s of %s' % (f, scheme))
     fl = dict(s.base_flags)
     fl.update(flags)
-    return x4.Interp(d['funcs'], d['enums'], d['tabs'], s.ops, s.descend, fl, ignore=s.ignore)
+    return x4.Interp(d['funcs'], d['enums'], d['tabs'], s.ops, set(s.descend) | _reaches_ops(s), fl, ignore=s.ignore)
+
+
+_reach_cache = {}
+
+
+def _reaches_ops(s):
+    """helper functions (not operators themselves) from which an operator of the scheme is reachable: a block moved into a
+    new static helper is interpreted like the block it replaced"""
+    if s.name in _reach_cache:
+        return _reach_cache[s.name]
+    d = db()
+    calls = {}
+    for name, fn in d['funcs'].items():
+        cs = set()
+        for e in cfront.walk(cfront.body(fn)):
+            if e.get('kind') == 'CallExpr':
+                nm = cfront.callee_name(e)
+                if nm:
+                    cs.add(nm)
+        calls[name] = cs
+    ops = {o for o in s.ops if not o.isupper()}
+    reach = set()
+    changed = True
+    while changed:
+        changed = False
+        for name, cs in calls.items():
+            if name in reach or name in ops:
+                continue
+            if cs & (ops | reach):
+                reach.add(name)
+                changed = True
+    # only helpers of the scheme's own files, and never the drivers of other schemes
+    own = {name for name, fn in d['funcs'].items() if s.name in (cfront.basename(fn.get('_locfile') or fn.get('_file')) or '')}
+    drivers = {x for sc in SCHEMES.values() for x in (sc.part1, sc.part2, sc.sync)}
+    out = (reach & own) - drivers - {'reb_simulation_update_acceleration'}
+    _reach_cache[s.name] = out
+    return out
 
 
 def run(scheme, flags, actions=('step',)):
